@@ -62,7 +62,7 @@ package websocket
 // ghwr(w).pos / ghwr(w).out: the logical output stream of a writer.
 
 //@ func readFrameHeader
-//@ tags C03
+//@ tags C03 C09
 //@ requires r != nil && len(readBuf) == 8
 //@ requires [armed] {C09 C10} ghconn(r) != nil ==> gvcIsArmed(ghconn(r).readTimeout)
 //@ modifies ghrd(r).pos, bytes(readBuf)
@@ -163,19 +163,18 @@ package websocket
 // read.go: frame-level reads on a connection (C03, C04, C10)
 
 //@ func (*Conn).readFrameHeader
-//@ tags C03 C04 C10
+//@ tags C03 C04 C10 C09
 //@ requires connInv(c) && c.br != nil && ctx != nil
 //@ modifies ghrd(c.br).pos, c.readHeaderBuf, chanstate(c.readTimeout)
 //@ ensures [dec] result1 == nil ==> specDecoded(c.br, old(ghrd(c.br).pos), result0) && result0.payloadLength >= 0
 //@ ensures [consumed] result1 == nil ==> ghrd(c.br).pos == old(ghrd(c.br).pos) + specDecodedLen(c.br, old(ghrd(c.br).pos))
 //@ ensures [rearm] {C10} result1 == nil ==> gvcArmed(c.readTimeout) == context.Background()
 //@ ensures [zero-on-err] result1 != nil ==> result0 == header{}
-//@ ensures [closed-fails] {C06} old(gvcClosed(c.closed)) ==> result1 != nil
 //@ ensures [not-ce] !errIsCE(result1)
 //@ ensures [not-eof] result1 != io.EOF
 
 //@ func (*Conn).readFramePayload
-//@ tags C03 C04 C10
+//@ tags C03 C04 C10 C09
 //@ requires connInv(c) && c.br != nil && ctx != nil
 //@ modifies ghrd(c.br).pos, bytes(p), chanstate(c.readTimeout)
 //@ ensures [n] 0 <= result0 && result0 <= len(p) && (result1 == nil ==> result0 == len(p))
@@ -183,7 +182,6 @@ package websocket
 //@ ensures [bytes] forall(0, result0, func(k int) bool { return p[k] == rdin(c.br, old(ghrd(c.br).pos)+k) })
 //@ ensures [eof-short] {C04} errIs(result1, io.EOF) || errIs(result1, io.ErrUnexpectedEOF) ==> result0 < len(p)
 //@ ensures [rearm] {C10} result1 == nil ==> gvcArmed(c.readTimeout) == context.Background()
-//@ ensures [closed-fails] {C06} old(gvcClosed(c.closed)) ==> result1 != nil
 //@ ensures [not-ce] !errIsCE(result1)
 //@ ensures [not-eof] result1 != io.EOF
 
@@ -587,3 +585,22 @@ package websocket
 //@ ensures [limit-reload] {C08} err == nil ==> c.msgReader.limitReader.n == ghi64(&c.msgReader.limitReader.limit).val
 //@ ensures [unlocked] {C05} !gvcHeld(c.readMu.ch)
 //@ ensures [closed-fails] {C06} old(gvcClosed(c.closed)) ==> err != nil
+
+// ---------------------------------------------------------------------------
+// conn.go: ping, timeout watcher (C15, C20, C10)
+
+//@ func (*Conn).timeoutLoop
+//@ tags C20 C10
+//@ requires connInv(c) && c.timeoutLoopDone != nil && c.rwc != nil && !gvcHeld(c.readMu.ch) && !gvcHeld(c.writeFrameMu.ch) && !gvcHeld(c.msgWriter.writeMu.ch)
+//@ modifies chanstate(c.timeoutLoopDone), chanstate(c.closed), chanstate(c.readTimeout), chanstate(c.writeTimeout), chanstate(c.readMu.ch), chanstate(c.msgWriter.writeMu.ch), chanstate(c.writeFrameMu.ch), c.br, c.msgReader.flateReader, c.msgReader.dict, c.msgWriter.flateWriter
+//@ ensures [done-closed] {C20} gvcClosed(c.timeoutLoopDone)
+//@ ensures [conn-closed] {C20} gvcClosed(c.closed)
+//@ loop 1 modifies chanstate(c.closed), chanstate(c.readTimeout), chanstate(c.writeTimeout)
+//@ loop 1 invariant [inv] connInv(c) && !gvcHeld(c.readMu.ch) && !gvcHeld(c.writeFrameMu.ch) && !gvcHeld(c.msgWriter.writeMu.ch)
+
+//@ func (*Conn).ping
+//@ tags C15
+//@ requires connReady(c) && ctx != nil && !gvcHeld(c.writeFrameMu.ch) && len(p) <= 125
+//@ modifies $WRFP, mapof(c.activePings)
+//@ ensures [closed-fails] {C06} old(gvcClosed(c.closed)) ==> result != nil
+//@ ensures [deregistered] {C15} !gvcMapHas(c.activePings, p) || old(gvcMapHas(c.activePings, p))
